@@ -265,6 +265,19 @@ Proof.
       reflexivity.
 Qed.
 
+(* the closed form is the plain nested loops: iterated keys outermost in key order (last one
+   fastest), the zipped position innermost *)
+Lemma spec_maps_loops nk nls zk zls :
+  spec_maps nk nls zk zls =
+  flat_map (fun ixs => map (fun z => combine nk ixs ++ map (fun k => (k, z)) zk)
+                           (seq 0 (zfac zk zls)))
+           (product nls).
+Proof.
+  unfold spec_maps. rewrite product_digits, flat_map_map.
+  rewrite (flat_map_seq_divmod (fun q z => combine nk (digits nls q) ++ map (fun k => (k, z)) zk)).
+  reflexivity.
+Qed.
+
 (* ================================================================================== *)
 (* D. collectors are keyed by row number: any completion order gives the same slots      *)
 
@@ -350,11 +363,543 @@ Qed.
 Theorem run_order_irrelevant c o1 o2 st : run c o1 st = run c o2 st.
 Proof.
   unfold run. cbv zeta.
-  destruct (c_cache c && _); [reflexivity|].
+  destruct (hit c st); [reflexivity|].
   destruct (negb _); [reflexivity|].
   destruct (index_maps _ _ _) as [maps|e]; [|reflexivity].
-  destruct (negb (c_df c) && _); [reflexivity|].
-  destruct (dropped c maps); [|reflexivity].
+  destruct (negb (c_df c) && negb (nodupb _ _)); [reflexivity|].
+  destruct (negb (c_df c) && negb (isnil _)); [reflexivity|].
+  destruct (filter _ (dropped c maps)); [|reflexivity].
   destruct (all_some _) as [argss|]; [|reflexivity].
   rewrite !collect_sched. reflexivity.
+Qed.
+
+(* ================================================================================== *)
+(* E. one rebuilding run                                                                *)
+
+Lemma list_eqb_eq (a b : list string) : list_eqb String.eqb a b = true -> a = b.
+Proof.
+  revert b; induction a as [|x a IH]; intros [|y b] H; simpl in H; try discriminate; [reflexivity|].
+  apply andb_true_iff in H. destruct H as [H1 H2]. apply String.eqb_eq in H1. subst. f_equal. auto.
+Qed.
+
+Lemma sassoc_In {B} l (d : list (string * B)) v : sassoc l d = Some v -> In (l, v) d.
+Proof.
+  unfold sassoc. induction d as [|[k w] r IH]; simpl; [discriminate|].
+  destruct (String.eqb l k) eqn:E.
+  - apply String.eqb_eq in E. subst. intro H. inversion H. now left.
+  - intro H. right. auto.
+Qed.
+
+Lemma sassoc_some {B} l (d : list (string * B)) : In l (map fst d) -> exists v, sassoc l d = Some v.
+Proof.
+  unfold sassoc. induction d as [|[k w] r IH]; simpl; [contradiction|].
+  destruct (String.eqb l k) eqn:E; [eauto|].
+  intros [H|H]; [subst; rewrite String.eqb_refl in E; discriminate|auto].
+Qed.
+
+Lemma sassoc_data_of l i :
+  sassoc l (data_of i) =
+  match sassoc l i with
+  | Some v => Some (match v with Some (IL xs) => Some (List.length xs) | _ => None end)
+  | None => None
+  end.
+Proof.
+  unfold sassoc, data_of. induction i as [|[k v] r IH]; simpl; [reflexivity|].
+  destruct (String.eqb l k); [reflexivity|exact IH].
+Qed.
+
+Section Shaped.
+  Variable c : cfg.
+  Variable i : inputs.
+  Hypothesis Hsh : shaped c i = true.
+
+  Lemma shaped_labels : map fst i = in_labels c.
+  Proof.
+    unfold shaped, typed in Hsh. apply andb_true_iff in Hsh. destruct Hsh as [H _].
+    apply andb_true_iff in H. destruct H as [H _]. now apply list_eqb_eq.
+  Qed.
+
+  Lemma shaped_entry l v : In (l, v) i ->
+    match v with
+    | Some (IL _) => mems l (looped c) = true
+    | Some (IZ _) => mems l (looped c) = false
+    | None => False
+    end.
+  Proof.
+    intro Hin. unfold shaped, typed in Hsh. apply andb_true_iff in Hsh. destruct Hsh as [H Hall].
+    apply andb_true_iff in H. destruct H as [_ H].
+    rewrite forallb_forall in H. specialize (H _ Hin). simpl in H.
+    unfold all_data in Hall. rewrite forallb_forall in Hall. specialize (Hall _ Hin). simpl in Hall.
+    destruct v as [[z|xs]|]; simpl in *; try assumption; try discriminate.
+    now apply negb_true_iff.
+  Qed.
+
+  Lemma shaped_all_data : all_data i = true.
+  Proof. unfold shaped in Hsh. now apply andb_true_iff in Hsh. Qed.
+
+  Lemma looped_list l : In l (in_labels c) -> mems l (looped c) = true ->
+    exists xs, sassoc l i = Some (Some (IL xs)).
+  Proof.
+    intros Hin Hl. rewrite <- shaped_labels in Hin. destruct (sassoc_some _ _ Hin) as [v Hv].
+    pose proof (shaped_entry _ _ (sassoc_In _ _ _ Hv)) as He.
+    destruct v as [[z|xs]|]; [congruence|eauto|contradiction].
+  Qed.
+
+  Lemma bcast_val l : In l (in_labels c) -> mems l (looped c) = false -> exists z, bval i l = Some z.
+  Proof.
+    intros Hin Hl. rewrite <- shaped_labels in Hin. destruct (sassoc_some _ _ Hin) as [v Hv].
+    pose proof (shaped_entry _ _ (sassoc_In _ _ _ Hv)) as He. unfold bval. rewrite Hv.
+    destruct v as [[z|xs]|]; [eauto|congruence|contradiction].
+  Qed.
+
+  Lemma lengths_data_of ks :
+    (forall l, In l ks -> In l (in_labels c) /\ mems l (looped c) = true) ->
+    lengths (data_of i) ks = Ok (lens i ks).
+  Proof.
+    induction ks as [|k r IH]; intro H; [reflexivity|].
+    simpl. destruct (H k (or_introl eq_refl)) as [Hin Hl].
+    destruct (looped_list k Hin Hl) as [xs Hx].
+    rewrite sassoc_data_of, Hx. rewrite IH by (intros l Hl'; apply H; now right).
+    unfold listof. rewrite Hx. reflexivity.
+  Qed.
+End Shaped.
+
+Lemma isnil_app {A} (a b : list A) : isnil (a ++ b) = isnil a && isnil b.
+Proof. destruct a; reflexivity. Qed.
+
+Lemma subsetb_In a b x : subsetb String.eqb a b = true -> In x a -> In x b.
+Proof.
+  unfold subsetb. rewrite forallb_forall. intros H Hin. apply mems_In. exact (H _ Hin).
+Qed.
+
+Record wf_facts (c : cfg) : Prop := {
+  wf_some : isnil (c_iter c) && isnil (c_zip c) = false;
+  wf_ins : NoDup (in_labels c);
+  wf_loop : NoDup (c_iter c ++ c_zip c);
+  wf_sub : forall l, In l (looped c) -> In l (in_labels c);
+  wf_cols : NoDup (looped c ++ out_cols c)
+}.
+
+Lemma wf_unpack c : wf_cfg c = true -> wf_facts c.
+Proof.
+  unfold wf_cfg. rewrite !andb_true_iff. intros [[[[[H0 H1] H2] H3] H4] H5].
+  constructor.
+  - unfold looped in H0. rewrite isnil_app in H0. now apply negb_true_iff.
+  - now apply nodupb_NoDup.
+  - now apply nodupb_NoDup.
+  - intros l. now apply subsetb_In.
+  - now apply nodupb_NoDup.
+Qed.
+
+Lemma filter_all_in (L K : list string) :
+  (forall l, In l K -> In l L) -> filter (fun l => negb (mems l L)) K = [].
+Proof.
+  induction K as [|k r IH]; intro H; [reflexivity|].
+  simpl. assert (mems k L = true) as -> by (apply mems_In, H; now left).
+  simpl. apply IH. intros l Hl. apply H. now right.
+Qed.
+
+Lemma sassoc_none_notin {B} l (d : list (string * B)) : sassoc l d = None -> ~ In l (map fst d).
+Proof.
+  intros H Hin. destruct (sassoc_some _ _ Hin) as [v Hv]. congruence.
+Qed.
+
+Lemma all_some_map {A B} (f : A -> option B) (g : A -> B) l :
+  (forall x, In x l -> f x = Some (g x)) -> all_some (map f l) = Some (map g l).
+Proof.
+  induction l as [|x r IH]; intro H; [reflexivity|].
+  simpl. rewrite (H x (or_introl eq_refl)), IH; [reflexivity|]. intros y Hy. apply H. now right.
+Qed.
+
+Lemma combine_map_same {A B C} (f : A -> B) (g : A -> C) s :
+  combine (map f s) (map g s) = map (fun r => (f r, g r)) s.
+Proof. induction s as [|x r IH]; [reflexivity|]. simpl. now rewrite IH. Qed.
+
+Lemma map_nth_seq {A} (l : list A) d : map (fun r => nth r l d) (seq 0 (List.length l)) = l.
+Proof.
+  apply nth_error_ext_eq. intro j. rewrite nth_error_map, nth_error_seq.
+  destruct (j <? List.length l) eqn:E.
+  - apply Nat.ltb_lt in E. simpl. symmetry. now apply nth_error_nth'.
+  - apply Nat.ltb_ge in E. simpl. symmetry. now apply nth_error_None.
+Qed.
+
+Lemma perm_collectors (a b o : list string) : Permutation (o ++ b ++ a) ((a ++ b) ++ o).
+Proof.
+  rewrite (Permutation_app_comm o). apply Permutation_app_tail. apply Permutation_app_comm.
+Qed.
+
+Lemma lookupz_cons_ne k k' v d : k' <> k -> lookupz k' ((k, v) :: d) = lookupz k' d.
+Proof.
+  intro H. unfold lookupz, sassoc. simpl. destruct (String.eqb k' k) eqn:E; [|reflexivity].
+  apply String.eqb_eq in E. contradiction.
+Qed.
+
+Lemma map_lookup_self (d : list (string * Z)) :
+  NoDup (map fst d) -> map (fun k => (k, lookupz k d)) (map fst d) = d.
+Proof.
+  induction d as [|[k v] r IH]; intro H; [reflexivity|].
+  simpl map. inversion H; subst. f_equal.
+  - unfold lookupz, sassoc. simpl. now rewrite String.eqb_refl.
+  - rewrite <- (IH H3) at 2. apply map_ext_in. intros k' Hk'. f_equal.
+    apply lookupz_cons_ne. intro E. subst. contradiction.
+Qed.
+
+Section Miss.
+  Variable c : cfg.
+  Variable i : inputs.
+  Hypothesis Hwf : wf_cfg c = true.
+  Hypothesis Htot : body_total c.
+  Hypothesis Hsh : shaped c i = true.
+
+  Let W := wf_unpack c Hwf.
+
+  Lemma entry_keys r : map fst (entry_of c i r) = looped c.
+  Proof. unfold entry_of. apply spec_entry_keys. unfold lens. now rewrite map_length. Qed.
+
+  Lemma args_entry r : args_of c i (entry_of c i r) = Some (spec_args c i r).
+  Proof.
+    unfold args_of, spec_args. apply all_some_map. intros [l d] Hin.
+    unfold arg_of, spec_arg. simpl fst. simpl snd.
+    destruct (sassoc l (entry_of c i r)) as [ix|] eqn:E; [reflexivity|].
+    destruct (mems l (looped c)) eqn:El.
+    - exfalso. apply (sassoc_none_notin _ _ E). rewrite entry_keys. now apply mems_In.
+    - assert (In l (in_labels c)) as Hl by (unfold in_labels; apply in_map_iff; exists (l, d); auto).
+      destruct (bcast_val c i Hsh l Hl El) as [z Hz]. now rewrite Hz.
+  Qed.
+
+  Lemma out_cols_length a : List.length (out_cols c) = List.length (b_fun (c_body c) a).
+  Proof. unfold out_cols. now rewrite map_length, Htot. Qed.
+
+  Lemma spec_row_keys r : map fst (spec_row c i r) = looped c ++ out_cols c.
+  Proof.
+    unfold spec_row. rewrite map_app. unfold picked. rewrite map_map. simpl.
+    rewrite map_fst_combine by apply out_cols_length.
+    f_equal. rewrite <- (entry_keys r). reflexivity.
+  Qed.
+
+  Lemma row_keys_ok : row_keys c = looped c ++ out_cols c.
+  Proof.
+    unfold row_keys. rewrite dict_of_nodup; rewrite map_map; simpl; rewrite map_id; [reflexivity|].
+    exact (wf_cols c W).
+  Qed.
+
+  Lemma row_entry r : row_of c i (entry_of c i r) (spec_args c i r) = spec_row c i r.
+  Proof.
+    unfold row_of. cbv zeta. fold (spec_row c i r).
+    rewrite dict_of_nodup by (rewrite spec_row_keys; exact (wf_cols c W)).
+    rewrite row_keys_ok, <- (spec_row_keys r). apply map_lookup_self.
+    rewrite spec_row_keys. exact (wf_cols c W).
+  Qed.
+
+  Lemma collectors_ok : negb (c_df c) && negb (nodupb String.eqb (collector_names c)) = false.
+  Proof.
+    assert (nodupb String.eqb (collector_names c) = true) as ->; [|now rewrite andb_false_r].
+    apply nodupb_NoDup. unfold collector_names.
+    apply (Permutation_NoDup (l := looped c ++ out_cols c)); [|exact (wf_cols c W)].
+    symmetry. unfold looped. apply perm_collectors.
+  Qed.
+
+  Lemma list_names_ok : list_names c = spec_list_names c.
+  Proof.
+    unfold list_names, spec_list_names.
+    set (X := filter (fun l => mems l (looped c)) (in_labels c) ++ out_cols c).
+    rewrite dict_of_nodup; rewrite map_map; simpl; rewrite map_id; [reflexivity|].
+    unfold X. apply NoDup_app_intro.
+    - apply NoDup_filter. exact (wf_ins c W).
+    - exact (NoDup_app_r _ _ (wf_cols c W)).
+    - intros x Hx. apply filter_In in Hx. destruct Hx as [_ Hx]. apply mems_In in Hx.
+      exact (NoDup_app_disj _ _ x (wf_cols c W) Hx).
+  Qed.
+
+  Lemma table_ok : 0 < nrows c i -> table_of c (spec_rows c i) = spec_table c i.
+  Proof.
+    intro Hn. unfold table_of, spec_table. destruct (c_df c).
+    - f_equal. unfold spec_rows. destruct (nrows c i) as [|n]; [lia|]. simpl. apply spec_row_keys.
+    - now rewrite list_names_ok.
+  Qed.
+
+  Lemma maps_are_entries :
+    mixed_zero_in c i = false ->
+    index_maps (data_of i) (Some (c_iter c)) (Some (c_zip c)) =
+      if nrows c i =? 0 then Err ValueErrorAllZero else Ok (map (entry_of c i) (seq 0 (nrows c i))).
+  Proof.
+    intro Hmix.
+    rewrite (index_maps_spec (data_of i) (Some (c_iter c)) (Some (c_zip c))
+                             (lens i (c_iter c)) (lens i (c_zip c))).
+    - simpl okeys. rewrite (wf_some c W). reflexivity.
+    - simpl okeys. apply (lengths_data_of c i Hsh). intros l Hl. split.
+      + apply (wf_sub c W). unfold looped. apply in_or_app. now left.
+      + apply mems_In. unfold looped. apply in_or_app. now left.
+    - simpl okeys. apply (lengths_data_of c i Hsh). intros l Hl. split.
+      + apply (wf_sub c W). unfold looped. apply in_or_app. now right.
+      + apply mems_In. unfold looped. apply in_or_app. now right.
+    - exact (wf_loop c W).
+    - exact Hmix.
+  Qed.
+
+  Theorem run_miss order st :
+    s_in st = i -> mixed_zero_in c i = false -> s_failed st = false -> hit c st = false ->
+    run c order st =
+      if nrows c i =? 0 then (st, Raised ValueErrorAllZero false [])
+      else (built c i, Returned (Some (spec_table c i)) (spec_calls c i)).
+  Proof.
+    intros Hi Hmix Hf Hhit. unfold run. cbv zeta. rewrite Hhit, Hi, Hf, (shaped_all_data c i Hsh).
+    cbn [andb negb]. rewrite (maps_are_entries Hmix).
+    destruct (nrows c i =? 0) eqn:En; [reflexivity|].
+    apply Nat.eqb_neq in En. assert (0 < nrows c i) as Hpos by lia.
+    set (n := nrows c i) in *. set (maps := map (entry_of c i) (seq 0 n)).
+    rewrite collectors_ok.
+    assert (dropped c maps = []) as ->.
+    { unfold dropped, maps. destruct n as [|n']; [lia|]. simpl hd. rewrite entry_keys.
+      apply filter_all_in. auto. }
+    cbn [isnil negb filter]. rewrite andb_false_r.
+    assert (all_some (map (args_of c i) maps) = Some (map (spec_args c i) (seq 0 n))) as ->.
+    { unfold maps. rewrite map_map. apply all_some_map. intros r _. apply args_entry. }
+    assert (List.length maps = n) as -> by (unfold maps; now rewrite map_length, seq_length).
+    rewrite collect_sched.
+    assert (map (fun ma : imap * list Z => row_of c i (fst ma) (snd ma))
+                (combine maps (map (spec_args c i) (seq 0 n))) = spec_rows c i) as Hrows.
+    { unfold maps. rewrite combine_map_same, map_map. unfold spec_rows. fold n.
+      apply map_ext. intro r. simpl. apply row_entry. }
+    rewrite Hrows, map_map.
+    assert (map (fun r => nth r (spec_rows c i) []) (seq 0 n) = spec_rows c i) as ->.
+    { replace n with (List.length (spec_rows c i)) at 1; [apply map_nth_seq|].
+      unfold spec_rows. now rewrite map_length, seq_length. }
+    rewrite (table_ok Hpos). unfold built, spec_children, spec_calls. fold n. fold maps.
+    reflexivity.
+  Qed.
+End Miss.
+
+(* ================================================================================== *)
+(* F. all histories: re-runs with changed inputs, cache hits and misses                 *)
+
+Lemma list_eqb_eq_gen {A} (eqb : A -> A -> bool) :
+  (forall x y, eqb x y = true -> x = y) -> forall a b, list_eqb eqb a b = true -> a = b.
+Proof.
+  intros He a. induction a as [|x a IH]; intros [|y b] H; simpl in H; try discriminate; [reflexivity|].
+  apply andb_true_iff in H. destruct H as [H1 H2]. f_equal; auto.
+Qed.
+
+Lemma ival_eqb_eq a b : ival_eqb a b = true -> a = b.
+Proof.
+  destruct a as [x|x]; destruct b as [y|y]; simpl; try discriminate.
+  - intro H. apply Z.eqb_eq in H. now subst.
+  - intro H. f_equal. revert H. apply list_eqb_eq_gen. intros ? ?. apply Z.eqb_eq.
+Qed.
+
+Lemma inputs_eqb_eq a b : inputs_eqb a b = true -> a = b.
+Proof.
+  apply list_eqb_eq_gen. intros [k v] [k' v']. simpl. intro H.
+  apply andb_true_iff in H. destruct H as [H1 H2]. apply String.eqb_eq in H1. subst.
+  destruct v as [v|]; destruct v' as [v'|]; simpl in H2; try discriminate; [|reflexivity].
+  apply ival_eqb_eq in H2. now subst.
+Qed.
+
+(* what a reachable node remembers is right: whenever its cache answers for complete,
+   well-shaped inputs, the stored table and the sub-graph are those of these inputs *)
+Definition Inv (c : cfg) (st : fstate) : Prop :=
+  s_failed st = false /\
+  forall ci, s_cached st = Some ci -> shaped c ci = true ->
+    0 < nrows c ci /\ s_out st = Some (spec_table c ci) /\ s_children st = spec_children c ci.
+
+(* inputs of one step: right labels and shapes; if complete, not the mixed zero-length layout *)
+Definition ok_inputs (c : cfg) (i : inputs) : Prop :=
+  typed c i = true /\ (all_data i = true -> mixed_zero_in c i = false).
+
+Inductive reach (c : cfg) : fstate -> Prop :=
+| reach_create st : create c = Ok st -> reach c st
+| reach_step st s : reach c st -> ok_inputs c (s_in (assign_all st (fst s))) ->
+                    reach c (fst (do_step c st s)).
+
+Lemma assign_all_keeps st a :
+  s_children (assign_all st a) = s_children st /\ s_cached (assign_all st a) = s_cached st /\
+  s_out (assign_all st a) = s_out st /\ s_failed (assign_all st a) = s_failed st.
+Proof.
+  unfold assign_all. revert st. induction a as [|[l v] r IH]; intro st; simpl; [auto|].
+  destruct (IH (assign st l v)) as (H1 & H2 & H3 & H4). rewrite H1, H2, H3, H4. auto.
+Qed.
+
+Lemma assign_all_inv c st a : Inv c st -> Inv c (assign_all st a).
+Proof.
+  destruct (assign_all_keeps st a) as (H1 & H2 & H3 & H4).
+  unfold Inv. now rewrite H1, H2, H3, H4.
+Qed.
+
+Lemma create_inv c st : create c = Ok st -> Inv c st.
+Proof.
+  unfold create. destruct (check_class c); [discriminate|]. intro H. inversion H; subst.
+  split; [reflexivity|]. simpl. discriminate.
+Qed.
+
+Lemma built_inv c i : 0 < nrows c i -> Inv c (built c i).
+Proof.
+  intro Hn. split; [reflexivity|]. unfold built. simpl. intros ci Hc _.
+  destruct (c_cache c); [|discriminate]. inversion Hc; subst. auto.
+Qed.
+
+Lemma run_inv c order st :
+  wf_cfg c = true -> body_total c -> Inv c st -> ok_inputs c (s_in st) -> Inv c (fst (run c order st)).
+Proof.
+  intros Hwf Htot [Hf Hc] [Hty Hmz].
+  destruct (hit c st) eqn:Hhit.
+  - unfold run. cbv zeta. rewrite Hhit. simpl. now split.
+  - destruct (all_data (s_in st)) eqn:Had.
+    + assert (shaped c (s_in st) = true) as Hsh by (unfold shaped; now rewrite Hty, Had).
+      rewrite (run_miss c (s_in st) Hwf Htot Hsh order st eq_refl (Hmz eq_refl) Hf Hhit).
+      destruct (nrows c (s_in st) =? 0) eqn:En; simpl.
+      * now split.
+      * apply built_inv. apply Nat.eqb_neq in En. lia.
+    + unfold run. cbv zeta. rewrite Hhit, Had. cbn [andb negb fst]. now split.
+Qed.
+
+Lemma reach_inv c st : wf_cfg c = true -> body_total c -> reach c st -> Inv c st.
+Proof.
+  intros Hwf Htot H. induction H as [st H|st s H IH Hok].
+  - now apply create_inv.
+  - unfold do_step. apply run_inv; auto. now apply assign_all_inv.
+Qed.
+
+(* after ANY history of (re-)assignments and runs, one more run on complete inputs returns
+   exactly the table of these inputs and leaves exactly their sub-graph *)
+Theorem rerun_spec c :
+  wf_cfg c = true -> body_total c ->
+  forall st, reach c st ->
+  forall s, let i := s_in (assign_all st (fst s)) in
+    shaped c i = true -> mixed_zero_in c i = false ->
+    if nrows c i =? 0 then
+      do_step c st s = (assign_all st (fst s), Raised ValueErrorAllZero false [])
+    else
+      exists calls,
+        snd (do_step c st s) = Returned (Some (spec_table c i)) calls /\
+        (calls = [] \/ calls = spec_calls c i) /\
+        s_children (fst (do_step c st s)) = spec_children c i /\
+        s_out (fst (do_step c st s)) = Some (spec_table c i).
+Proof.
+  intros Hwf Htot st Hr s i Hsh Hmix.
+  pose proof (assign_all_inv c st (fst s) (reach_inv c st Hwf Htot Hr)) as [Hf Hc].
+  unfold do_step. fold i in Hf, Hc |- *. set (st1 := assign_all st (fst s)) in *.
+  destruct (hit c st1) eqn:Hhit.
+  - unfold run. cbv zeta. rewrite Hhit. cbn [fst snd].
+    unfold hit in Hhit. apply andb_true_iff in Hhit. destruct Hhit as [_ Hh].
+    destruct (s_cached st1) as [ci|] eqn:Eci; [|discriminate].
+    apply inputs_eqb_eq in Hh. fold i in Hh. subst ci.
+    destruct (Hc i eq_refl Hsh) as (Hn & Ho & Hch).
+    destruct (nrows c i =? 0) eqn:En; [apply Nat.eqb_eq in En; lia|].
+    exists []. rewrite Ho. auto.
+  - rewrite (run_miss c i Hwf Htot Hsh (snd s) st1 eq_refl Hmix Hf Hhit).
+    destruct (nrows c i =? 0); [reflexivity|].
+    exists (spec_calls c i). cbn [fst snd built s_children s_out]. auto.
+Qed.
+
+(* ================================================================================== *)
+(* G. the sub-graph: as many body nodes as rows                                          *)
+
+Lemma count_kind_app k a b : count_kind k (a ++ b) = count_kind k a + count_kind k b.
+Proof. unfold count_kind. now rewrite filter_app, app_length. Qed.
+
+Lemma count_body_gi_fold (m : imap) ch :
+  count_kind "body" (fold_left (fun ch' (ki : string * nat) => add_child (gi_child (fst ki) (snd ki)) ch') m ch)
+  = count_kind "body" ch.
+Proof.
+  revert ch; induction m as [|[l ix] r IH]; intro ch; [reflexivity|].
+  simpl fold_left. rewrite IH. unfold add_child.
+  destruct (memb obs_eqb _ ch); [reflexivity|]. rewrite count_kind_app.
+  assert (count_kind "body" [gi_child l ix] = 0) as -> by reflexivity. lia.
+Qed.
+
+Lemma count_body_fold (nms : list (nat * imap)) ch :
+  count_kind "body"
+    (fold_left (fun ch (nm : nat * imap) =>
+                  fold_left (fun ch' (ki : string * nat) => add_child (gi_child (fst ki) (snd ki)) ch')
+                            (snd nm) (ch ++ [body_child (fst nm)])) nms ch)
+  = count_kind "body" ch + List.length nms.
+Proof.
+  revert ch; induction nms as [|[n m] r IH]; intro ch; [simpl; lia|].
+  simpl fold_left. rewrite IH, count_body_gi_fold, count_kind_app.
+  assert (count_kind "body" [body_child n] = 1) as -> by reflexivity. simpl List.length. lia.
+Qed.
+
+Lemma count_body_map {A} (f : A -> obs) l :
+  (forall x, count_kind "body" [f x] = 0) -> count_kind "body" (map f l) = 0.
+Proof.
+  intro H. induction l as [|x r IH]; [reflexivity|].
+  change (map f (x :: r)) with ([f x] ++ map f r). now rewrite count_kind_app, H, IH.
+Qed.
+
+Theorem body_nodes_count c maps : count_kind "body" (build_children c maps) = List.length maps.
+Proof.
+  unfold build_children, body_children.
+  assert (count_kind "body"
+            (fold_left (fun ch (nm : nat * imap) =>
+               fold_left (fun ch' (ki : string * nat) => add_child (gi_child (fst ki) (snd ki)) ch')
+                         (snd nm) (ch ++ [body_child (fst nm)]))
+               (combine (seq 0 (List.length maps)) maps) (map in_child (in_labels c)))
+          = List.length maps) as H.
+  { rewrite count_body_fold, combine_length, seq_length, Nat.min_id.
+    rewrite count_body_map; [reflexivity|]. reflexivity. }
+  destruct (c_df c); rewrite !count_kind_app, H.
+  - rewrite count_body_map by reflexivity.
+    assert (count_kind "body" [df_child] = 0) as -> by reflexivity. lia.
+  - rewrite count_body_map by reflexivity. lia.
+Qed.
+
+Corollary spec_children_bodies c i : count_kind "body" (spec_children c i) = nrows c i.
+Proof. unfold spec_children. now rewrite body_nodes_count, map_length, seq_length. Qed.
+
+(* ================================================================================== *)
+(* H. reading a row: the decoded positions                                              *)
+
+Lemma sassoc_app_l {B} l (a b : list (string * B)) v : sassoc l a = Some v -> sassoc l (a ++ b) = Some v.
+Proof.
+  unfold sassoc. induction a as [|[k w] r IH]; simpl; [discriminate|].
+  destruct (String.eqb l k); auto.
+Qed.
+
+Lemma sassoc_app_r {B} l (a b : list (string * B)) :
+  ~ In l (map fst a) -> sassoc l (a ++ b) = sassoc l b.
+Proof.
+  unfold sassoc. induction a as [|[k w] r IH]; simpl; intro H; [reflexivity|].
+  destruct (String.eqb l k) eqn:E.
+  - apply String.eqb_eq in E. subst. exfalso. apply H. now left.
+  - apply IH. intro Hin. apply H. now right.
+Qed.
+
+Lemma sassoc_combine_nth (ks : list string) (ds : list nat) j k :
+  NoDup ks -> List.length ds = List.length ks -> nth_error ks j = Some k ->
+  sassoc k (combine ks ds) = Some (nth j ds 0).
+Proof.
+  unfold sassoc. revert ds j. induction ks as [|x ks IH]; intros ds j Hnd Hl Hj.
+  - destruct j; discriminate.
+  - destruct ds as [|d ds]; [discriminate|]. inversion Hnd; subst. simpl.
+    destruct j as [|j]; simpl in Hj.
+    + inversion Hj; subst. now rewrite String.eqb_refl.
+    + destruct (String.eqb k x) eqn:E.
+      * apply String.eqb_eq in E. subst. exfalso. apply H1. eapply nth_error_In; eauto.
+      * apply IH; auto.
+Qed.
+
+Lemma sassoc_const_map (ks : list string) (z : nat) k :
+  In k ks -> sassoc k (map (fun k => (k, z)) ks) = Some z.
+Proof.
+  unfold sassoc. induction ks as [|x ks IH]; [contradiction|]. simpl.
+  destruct (String.eqb k x) eqn:E; [reflexivity|].
+  intros [H|H]; [subst; rewrite String.eqb_refl in E; discriminate|auto].
+Qed.
+
+(* the r-th combination gives iterated key number j the j-th mixed-radix digit of r / nz, and
+   every zipped key the position r mod nz *)
+Theorem entry_decodes nk nls zk nz r :
+  NoDup (nk ++ zk) -> List.length nls = List.length nk ->
+  (forall j k, nth_error nk j = Some k ->
+     sassoc k (spec_entry nk nls zk nz r) = Some (nth j (digits nls (r / nz)) 0)) /\
+  (forall k, In k zk -> sassoc k (spec_entry nk nls zk nz r) = Some (r mod nz)).
+Proof.
+  intros Hnd Hl. unfold spec_entry. split.
+  - intros j k Hj. apply sassoc_app_l. apply sassoc_combine_nth; auto.
+    + exact (NoDup_app_l _ _ Hnd).
+    + now rewrite digits_length.
+  - intros k Hk. rewrite sassoc_app_r.
+    + now apply sassoc_const_map.
+    + rewrite map_fst_combine by now rewrite digits_length.
+      intro Hin. exact (NoDup_app_disj _ _ k Hnd Hin Hk).
 Qed.
